@@ -9,9 +9,9 @@ echo "demo_cmd: $CMD"
 git apply --check -R SEED/patch.diff 2>/dev/null || git apply SEED/patch.diff
 echo "--- with change:"; (eval "$CMD") 2>&1 | tail -4 | cut -c1-300
 go build ./x/... ./app/... && echo "BUILD-OK"
-go test -vet=off -count=1 ./x/... 2>&1 | grep -v "no test files" | grep "^ok\|^FAIL\|^---" | sed "s/[0-9.]*s$//" | sort > /tmp/seed_tests_with.txt
+go test -vet=off -count=1 ./x/... 2>&1 | grep -v "no test files" | grep "^ok\|^FAIL\|^---" | sed -E "s/\(?[0-9.]+s\)?$//" | sort > /tmp/seed_tests_with.txt
 git apply -R SEED/patch.diff
 echo "--- without change:"; (eval "$CMD") 2>&1 | tail -3 | cut -c1-300
-go test -vet=off -count=1 ./x/... 2>&1 | grep -v "no test files" | grep "^ok\|^FAIL\|^---" | sed "s/[0-9.]*s$//" | sort > /tmp/seed_tests_without.txt
+go test -vet=off -count=1 ./x/... 2>&1 | grep -v "no test files" | grep "^ok\|^FAIL\|^---" | sed -E "s/\(?[0-9.]+s\)?$//" | sort > /tmp/seed_tests_without.txt
 git apply SEED/patch.diff
 diff /tmp/seed_tests_with.txt /tmp/seed_tests_without.txt && echo "TEST-SET-IDENTICAL"
